@@ -4,6 +4,8 @@ Written by Marten H. van Kerkwijk (@mhvk) for gh:mhvk/baseband_tasks.
 Licensed under the GPLv3.
 """
 
+from decimal import Decimal, localcontext
+
 import numpy as np
 from astropy import units as u
 from astropy.coordinates import Angle, Longitude
@@ -487,6 +489,23 @@ class Phase(Angle):
             if format == "latex":
                 s = "$" + s + "$"
             return s
+
+        def do_format_fixed(count, frac):
+            # Exact decimal arithmetic on the two parts, rounded to the digits shown.
+            with localcontext() as ctx:
+                ctx.prec = 1100
+                total = Decimal(int(count)) + Decimal(float(frac))
+                s = func(total)
+            if alwayssign and not s.startswith("-"):
+                s = "+" + s
+            if self.imaginary:
+                s += "j"
+            if format == "latex":
+                s = "$" + s + "$"
+            return s
+
+        if precision is not None:
+            do_format = do_format_fixed
 
         format_ufunc = np.vectorize(do_format, otypes=["U"])
         if self.imaginary:
